@@ -13,6 +13,8 @@ struct Cell {
     v: Pv,
     hs: Hs,
     entry: Entry,
+    /// entry point used for the second set of the pair (the property does not ask for the same container on both sides)
+    entry_b: Entry,
     m: usize,
     spec: PairSpec,
 }
@@ -49,7 +51,7 @@ fn build_cells(rep: &Report) -> Vec<Cell> {
             }
             let spec = pair(fam, ov, *n, &mut rng_from(subseed(1, "C01/core", &[k as u64])));
             let e = entries_for(v)[k % entries_for(v).len()];
-            cells.push(Cell { name: format!("core/{}/{}/{}/m={}/{}", v.name(), "fnv", entry_name(e), m, spec.name), v, hs: Hs::Fnv, entry: e, m: *m, spec });
+            cells.push(Cell { name: format!("core/{}/{}/{}/m={}/{}", v.name(), "fnv", entry_name(e), m, spec.name), v, hs: Hs::Fnv, entry: e, entry_b: e, m: *m, spec });
         }
     }
     // seeded random selection from the product space
@@ -67,24 +69,44 @@ fn build_cells(rep: &Report) -> Vec<Cell> {
         let es = entries_for(v);
         let e = es[rng.random_range(0..es.len())];
         let spec = pair(fam, ov, n, &mut rng);
-        cells.push(Cell { name: format!("rand{}/{}/{:?}/{}/m={}/{}", i, v.name(), hs, entry_name(e), m, spec.name), v, hs, entry: e, m, spec });
+        let eb = if rng.random_range(0..3) == 0 { es[rng.random_range(0..es.len())] } else { e };
+        cells.push(Cell { name: format!("rand{}/{}/{:?}/{}+{}/m={}/{}", i, v.name(), hs, entry_name(e), entry_name(eb), m, spec.name), v, hs, entry: e, entry_b: eb, m, spec });
     }
     // cells that exhibit the known finding C01/squared_error/pmh3-family-small-m in every run
     for v in [Pv::P3, Pv::P3a, Pv::P3aSha] {
         let spec = PairSpec { name: "two_items_ratio3/n=2".into(), wa: vec![1., 3.], wb: vec![3., 1.] };
-        cells.push(Cell { name: format!("known/{}/m=2/two_items_ratio3", v.name()), v, hs: Hs::Fnv, entry: entries_for(v)[0], m: 2, spec });
+        cells.push(Cell { name: format!("known/{}/m=2/two_items_ratio3", v.name()), v, hs: Hs::Fnv, entry: entries_for(v)[0], entry_b: entries_for(v)[0], m: 2, spec });
     }
     // single item sets (n = 1): identical singleton
     for v in ALL_PV {
         let spec = PairSpec { name: "singleton/identical/n=1".into(), wa: vec![3.5], wb: vec![3.5] };
-        cells.push(Cell { name: format!("single/{}/m=8", v.name()), v, hs: Hs::Fnv, entry: entries_for(v)[0], m: 8, spec });
+        cells.push(Cell { name: format!("single/{}/m=8", v.name()), v, hs: Hs::Fnv, entry: entries_for(v)[0], entry_b: entries_for(v)[0], m: 8, spec });
+    }
+    // the two sets of a pair through different entry points of the same variant: few items and m larger than the set, so that every
+    // stage of the algorithm contributes registers; the identical pair must collide everywhere, the partial one at rate J_P
+    for v in ALL_PV {
+        let es = entries_for(v);
+        for (ia, ea) in es.iter().enumerate() {
+            for (ib, eb) in es.iter().enumerate() {
+                if ia == ib {
+                    continue;
+                }
+                for (k, ov) in ["identical", "partial_diff_w"].iter().enumerate() {
+                    if k == 1 && (ia + ib) % 2 == 0 && rep.tier == Tier::Quick {
+                        continue;
+                    }
+                    let spec = pair("geometric", ov, 5, &mut rng_from(subseed(1, "C01/mixed", &[k as u64])));
+                    cells.push(Cell { name: format!("mixed/{}/{}+{}/m=16/{}", v.name(), entry_name(*ea), entry_name(*eb), spec.name), v, hs: Hs::Fnv, entry: *ea, entry_b: *eb, m: 16, spec });
+                }
+            }
+        }
     }
     cells
 }
 
 pub fn run(rep: &mut Report) {
     quiet_panics();
-    rep.rule = "cell = (variant, hasher, entry point, m, weighted set pair); per trial fresh random u64 identifiers are drawn for the union, both sets are sketched by the real code and the trial statistics are: collision fraction X (target J_P from the O(n^2) closed form), (X-J_P)^2 (bound J_P(1-J_P)/m, one-sided), fraction of positions of sig(A) holding the heaviest item / the lightest half of the items (targets w/sum w). Staged z-test per statistic (3.5 sigma -> fresh stage x10 -> 5.5 sigma). A cell is non-trivial when 0 < J_P < 1; distinct cells counted by digest of (variant, entry, m, weights)".into();
+    rep.rule = "cell = (variant, hasher, entry point of each set (a third of the random cells and the mixed/ cells use two different ones), m, weighted set pair); per trial fresh random u64 identifiers are drawn for the union, both sets are sketched by the real code and the trial statistics are: collision fraction X (target J_P from the O(n^2) closed form), (X-J_P)^2 (bound J_P(1-J_P)/m, one-sided), fraction of positions of sig(A) holding the heaviest item / the lightest half of the items (targets w/sum w). Staged z-test per statistic (3.5 sigma -> fresh stage x10 -> 5.5 sigma). A cell is non-trivial when 0 < J_P < 1; distinct cells counted by digest of (variant, entry, m, weights)".into();
     let cells = build_cells(rep);
     let t1: u64 = rep.tier.pick(10_000, 100_000);
     for (ci, c) in cells.iter().enumerate() {
@@ -128,7 +150,7 @@ pub fn run(rep: &mut Report) {
             shuffle(&mut a, rng);
             shuffle(&mut b, rng);
             let (sa, _) = pmh(c.v, c.hs, c.m, &a, c.entry, ph);
-            let (sb, _) = pmh(c.v, c.hs, c.m, &b, c.entry, ph);
+            let (sb, _) = pmh(c.v, c.hs, c.m, &b, c.entry_b, ph);
             let x = compute_probminhash_jaccard(&sa, &sb);
             out[0] = x;
             out[1] = (x - jt) * (x - jt);
@@ -139,13 +161,13 @@ pub fn run(rep: &mut Report) {
             let cl = sa.iter().filter(|s| lids.binary_search(s).is_ok()).count();
             out[3] = cl as f64 / c.m as f64;
         });
-        let case = json!({"variant": c.v.name(), "hasher": format!("{:?}", c.hs), "entry": entry_name(c.entry), "m": c.m, "pair": c.spec.name, "J_P": j,
+        let case = json!({"variant": c.v.name(), "hasher": format!("{:?}", c.hs), "entry": entry_name(c.entry), "entry_second_set": entry_name(c.entry_b), "m": c.m, "pair": c.spec.name, "J_P": j,
             "wa": f64_json(&c.spec.wa[..n.min(12)]), "wb": f64_json(&c.spec.wb[..n.min(12)])});
         if ci < 3 {
             rep.sample(case.clone());
         }
         if !degenerate {
-            rep.distinct.insert(mix(&[c.v as u64, c.m as u64, digest_f64s(&c.spec.wa), digest_f64s(&c.spec.wb), fnv64(entry_name(c.entry).as_bytes())]));
+            rep.distinct.insert(mix(&[c.v as u64, c.m as u64, digest_f64s(&c.spec.wa), digest_f64s(&c.spec.wb), fnv64(entry_name(c.entry).as_bytes()), fnv64(entry_name(c.entry_b).as_bytes())]));
         }
         // known finding: variants 3 / 3a / 3a-Sha with m <= 3 exceed the MinHash bound J(1-J)/m on sets of few items with
         // unequal weights (up to ~21% at m=2, ~3.5% at m=3; inherent to one point per unit interval). Keyed on the input class
